@@ -261,7 +261,54 @@ def check_dedup_continuation(ctx: Ctx, case):
                  sub, case)
 
 
-SUBCHECKS = {"halton_dedup": check_dedup_continuation, "halton_fn": check_fn, "primes": check_primes, "halton_sampler": check_sampler,
+def phi_ref(d):
+    lo, hi = 1.0, 2.0
+    for _ in range(200):
+        mid = (lo + hi) / 2
+        if mid ** (d + 1) > mid + 1:
+            hi = mid
+        else:
+            lo = mid
+    return (lo + hi) / 2
+
+
+@st.composite
+def long_cases(draw):
+    return {"d": draw(st.integers(1, 4)), "seed": draw(st.integers(0, 2**32 - 2)),
+            "sizes": draw(st.lists(st.integers(1500, 9000), min_size=2, max_size=4))}
+
+
+def check_rseq_long(ctx: Ctx, case):
+    """Thousands of points: a per-step error far below the grid step accumulates into a visible drift."""
+    from black_it.samplers.r_sequence import RSequenceSampler
+
+    sub = "rseq_long"
+    d = case["d"]
+    ctx.count(sub, case, True, [f"d={d}"])
+    with guard(ctx, "C13/exception", sub, case):
+        got = RSequenceSampler.compute_phi(d)
+    ref = phi_ref(d)
+    if abs(got - ref) > 8 * np.spacing(ref):
+        ctx.fail("C13/rseq-phi", f"compute_phi({d}) = {got!r}, the root of x^{d + 1} = x + 1 is {ref!r}", sub, case)
+        return
+    sp = space(d)
+    with guard(ctx, "C13/exception", sub, case):
+        s = RSequenceSampler(case["sizes"][0], random_state=case["seed"])
+        pts = np.vstack([s.sample_batch(b, sp, np.zeros((0, d)), np.zeros(0)) for b in case["sizes"]])
+    alpha = np.array([ref ** -(j + 1) for j in range(d)])
+    n = len(pts) - 1
+    for k in (n, n // 2, 1000):
+        diff = (pts[k] - pts[0]) % 1.0
+        exp = (k * alpha) % 1.0
+        err = np.abs(((diff - exp + 0.5) % 1.0) - 0.5)
+        if np.max(err) > 2 * STEP + 1e-9:
+            j = int(np.argmax(err))
+            ctx.fail("C13/rseq-increment", f"point {k} vs point 0, coordinate {j}: displacement {diff[j]!r} mod 1, {k} steps of the "
+                     f"generalised golden ratio vector give {exp[j]!r} (drift {err[j]:.3g}, grid step {STEP:.3g})", sub, case)
+            return
+
+
+SUBCHECKS = {"rseq_long": check_rseq_long, "halton_dedup": check_dedup_continuation, "halton_fn": check_fn, "primes": check_primes, "halton_sampler": check_sampler,
              "rseq_sampler": check_sampler}
 
 
@@ -271,3 +318,4 @@ def run(ctx: Ctx):
     drive(ctx, "halton_sampler", sampler_cases("halton"), check_sampler, ctx.n(1200, 8000))
     drive(ctx, "rseq_sampler", sampler_cases("rseq"), check_sampler, ctx.n(1500, 10000))
     drive(ctx, "halton_dedup", dedup_cases(), check_dedup_continuation, ctx.n(800, 8000))
+    drive(ctx, "rseq_long", long_cases(), check_rseq_long, ctx.n(120, 1200))
